@@ -52,8 +52,9 @@ Proof.
     + rewrite updl_other; auto.
   - destruct (loops s h0) eqn:EL; try discriminate. destruct (closed s).
     { inv_some. simpl. destruct (Nat.eq_dec h h0) as [Eh|N]; [subst; rewrite updl_same; intros ep' Hep; discriminate | rewrite updl_other; auto]. }
+    destruct (fail_pending h0 (tab s) (ent s)).
     destruct (Nat.eqb ep (epoch s)).
-    { destruct (fail_pending h0 (tab s) (ent s)). inv_some. simpl in E2. lia. }
+    { inv_some. simpl in E2. lia. }
     inv_some. simpl. destruct (Nat.eq_dec h h0) as [Eh|N].
     + subst. rewrite updl_same. intros ep' Hep. simpl in Hep. now inversion Hep.
     + rewrite updl_other; auto.
@@ -74,12 +75,13 @@ Proof.
   eapply IH; eauto. eapply step_ep_is; eauto.
 Qed.
 
-(* the losing branch of recreateStreamingClient refreshes the loop's epoch copy and touches nothing else *)
+(* the losing branch of recreateStreamingClient refreshes the loop's epoch copy and leaves the epoch alone *)
 Lemma lost_cas_refreshes : forall s h ep s', loops s h = LIdle ep -> ep <> epoch s -> closed s = false ->
   step s (StreamFail h) = Some s' ->
-  loops s' h = LIdle (epoch s') /\ epoch s' = epoch s /\ tab s' = tab s /\ (forall c, ent s' c = ent s c).
+  loops s' h = LIdle (epoch s') /\ epoch s' = epoch s.
 Proof.
   intros s h ep s' HL HN HC H. simpl in H. rewrite HL, HC in H.
+  destruct (fail_pending h (tab s) (ent s)).
   destruct (Nat.eqb_spec ep (epoch s)); [congruence|]. inv_some. simpl. rewrite updl_same. auto.
 Qed.
 
@@ -100,17 +102,17 @@ Lemma lost_cas_then_fail_pending : forall s h ep s1 ls s2 s3, reachable s ->
         e_comp (ent s3 c) = [Err EStream] /\ e_st (ent s3 c) = Retired /\ ~ In (i, c) (tab s3)).
 Proof.
   intros s h ep s1 ls s2 s3 R HL HN HC H1 Hrun HE HC2 H3.
-  destruct (lost_cas_refreshes _ _ _ _ HL HN HC H1) as (L1 & E1 & _).
+  destruct (lost_cas_refreshes _ _ _ _ HL HN HC H1) as (L1 & E1).
   assert (P : ep_is (epoch s1) (loops s2 h)).
   { eapply run_ep_is; eauto. rewrite L1. intros ep' Hep. simpl in Hep. now inversion Hep. }
   assert (R2 : reachable s2).
   { eapply reachable_run; [|exact Hrun]. apply (reachable_run s [StreamFail h] s1 R). cbn [run]. rewrite H1. reflexivity. }
   destruct (loops s2 h) eqn:EL2; try (simpl in H3; rewrite EL2 in H3; discriminate).
   assert (ep0 = epoch s2) by (rewrite HE; apply P; reflexivity).
-  destruct (fail_pending_total _ _ _ _ R2 EL2 H HC2 H3) as (A & B & _).
+  destruct (fail_pending_total _ _ _ R2 HC2 H3) as (A & B & _).
   split; [|split; auto].
-  simpl in H3. rewrite EL2, HC2, H, Nat.eqb_refl in H3.
-  destruct (fail_pending h (tab s2) (ent s2)). inv_some. reflexivity.
+  simpl in H3. rewrite EL2, HC2 in H3.
+  destruct (fail_pending h (tab s2) (ent s2)). rewrite H, Nat.eqb_refl in H3. inv_some. reflexivity.
 Qed.
 
 (* restart of the send loop: the id source and everything else survive *)
